@@ -11,7 +11,10 @@ PROP = {
              {"tag": "c05gen", "bin": "c05", "num": 105},
              # std's provided iterator methods (find, position, any, all, skip_while, filter, max, min_by_key, rev().find,
              # step_by, for_each(drop)) on the by-value iterator while one destructor panics: direct oracles
-             {"tag": "c05provided", "bin": "c05", "args": ["--provided"], "model": False}],
+             {"tag": "c05provided", "bin": "c05", "args": ["--provided"], "model": False},
+             # serde: the elements already read are torn down inside deserialize (too short / too long / faulty input
+             # from an unhinted source) while one destructor panics: nothing is released twice (direct oracle)
+             {"tag": "c05serde", "bin": "c17", "args": ["--bomb"], "model": False}],
     "mismatch_is_failing": True,
     "regen_files": ["GenIter.v"],
     "rule": "exhaustive: N<=6 (thorough 8) x every (front,back) position x {none, next, next_back, nth k, nth_back k for k in 0..=len+2} x every choice of the panicking element (and none) x {drop, count, last}, the caller catching every unwind and then using the iterator again; plus the teardown of the array itself, of ArrayBuilder / IntrusiveArrayBuilder with p slots written and of ArrayConsumer with p elements consumed, for every p and every panicking element; plus the array torn down inside try_from_iter when a source with size_hint (0, None) yields L <> N items (every L in 0..=N+2, every panicking element); plus seeded histories for N in {1,2,3,5,8,16,33}; run c05forms: a destructor panicking inside the caller's closure of map / zip / fold / iterator fold+rfold (every form, every call index); run c05gen: all of the above with the iterator methods and the builder / consumer Drop impls executed through the programs regenerated from the source. distinct = distinct CASE lines; non-trivial = a destructor is armed (second integer >= 0)",
